@@ -1,5 +1,5 @@
 import Pfl
-#print axioms Pfl.CFG.genCounters_restores
-#print axioms Pfl.CFG.genCounters_history
-#print axioms Pfl.CFG.genCounters_generating
-#print axioms Pfl.CFG.genCounters_nullable
+#print axioms Pfl.Rx.thompson_lang
+#print axioms Pfl.ENFA.langDiff_none_iff
+#print axioms Pfl.ENFA.langDiff_some
+#print axioms Pfl.ENFA.member_iff
